@@ -277,6 +277,26 @@ def FullRx.run (r : FullRx F) : List F → Option (FullRx F × List Event)
       | none => none
       | some (r, evs) => some (r, ev ++ evs)
 
+/-- `SameReceiver::reset()`.  Two fields survive it, exactly as in the code: the equalizer's mode
+    (`Equalizer::reset` does not touch it) and its image in the link model (`train`); both are rewritten by
+    the first byte tick after a reset, which is always a (re)synchronisation (the byte clock is stopped). -/
+def FullRx.reset (r : FullRx F) : FullRx F :=
+  let tl := (r.tl.setGains r.cfg.alphaU r.cfg.betaU).reset
+  { r with dc := r.dc.reset, agc := r.agc.reset,
+           demod := { r.demod with window := List.replicate r.demod.window.length zero },
+           tl, pt := { r.pt with power := zero }, hist := [], eq := r.eq.reset,
+           link := { ({} : LState) with train := r.link.train }, rx := {},
+           inputCounter := 0, tedClock := 0, untilNext := tl.samplesPerTed }
+
+/-- audio, `reset()`, more audio: the two event lists -/
+def FullRx.runResetRun (r : FullRx F) (xs ys : List F) : Option (List Event × List Event) :=
+  match r.run xs with
+  | none => none
+  | some (r, e1) =>
+    match r.reset.run ys with
+    | none => none
+    | some (_, e2) => some (e1, e2)
+
 instance : Hypot Float32 where
   hypot a b := (a.toFloat * a.toFloat + b.toFloat * b.toFloat).sqrt.toFloat32
 
